@@ -673,6 +673,76 @@ def check_stateless(ctx: Context, rep, rule: str) -> None:
                "no store into self", message="iteration methods only read "
                "the dataset object", sample=False)
     rep.floor(rule, n, 8, "iteration mixin methods")
+    check_reader_stateless(ctx, rep, rule)
+
+
+def check_reader_stateless(ctx: Context, rep, rule: str) -> None:
+    """One shard reader object serves every shard of a pass, and an
+    interleaving keeps several of its generators open at once: no method of
+    a reader class besides __init__ stores into self (a buffer kept on the
+    reader is overwritten by the next shard while an earlier generator still
+    decodes from it)."""
+    base = None
+    for mod in ctx.repo.hand_written():
+        for ci in mod.classes.values():
+            if ci.name == "IterateShardBase":
+                base = ci
+    if base is None:
+        raise AnalysisError(f"{rule}: IterateShardBase not found")
+    n_r = 0
+    for ci in [base] + list(ctx.repo.subclasses(base)):
+        for m in ci.methods.values():
+            if m.name == "__init__" or isinstance(m.node, ast.Lambda):
+                continue
+            n_r += 1
+            stores = []
+            for x in m.body_nodes():
+                tgts = []
+                if isinstance(x, ast.Assign):
+                    tgts = x.targets
+                elif isinstance(x, (ast.AugAssign, ast.AnnAssign)):
+                    tgts = [x.target]
+                for t in tgts:
+                    b = t
+                    while isinstance(b, (ast.Attribute, ast.Subscript)):
+                        b = b.value
+                    if isinstance(t, (ast.Attribute, ast.Subscript)) and \
+                            isinstance(b, ast.Name) and b.id == "self":
+                        # lazily created, shard-independent resource:
+                        # `if not self.X: self.X = <no parameter involved>`
+                        g = parent(x)
+                        params_ = set(m.params()) - {"self"}
+                        lazy = isinstance(g, ast.If) and isinstance(
+                            t, ast.Attribute) and (dotted(t) or "") in \
+                            ast.unparse(g.test) and all(
+                                y.id == "self" or y.id in m.module.globals or
+                                y.id in m.module.imports or
+                                y.id in m.module.functions or
+                                y.id in m.module.classes or
+                                hasattr(__import__("builtins"), y.id)
+                                for y in ast.walk(x.value)
+                                if isinstance(y, ast.Name)) if getattr(
+                                    x, "value", None) is not None else False
+                        if not lazy:
+                            stores.append(x)
+                if isinstance(x, ast.Call) and isinstance(
+                        x.func, ast.Attribute) and x.func.attr in (
+                            "append", "extend", "update", "clear", "pop",
+                            "insert", "setdefault", "add", "readinto") and (
+                                dotted(x.func.value) or "").startswith("self."):
+                    stores.append(x)
+                if isinstance(x, ast.Call) and isinstance(
+                        x.func, ast.Attribute) and x.func.attr == "readinto" \
+                        and any((dotted(a) or ast.unparse(a)).find("self.") >= 0
+                                for a in x.args):
+                    stores.append(x)
+            rep.ob(rule, not stores, loc=m.loc(stores[0]) if stores else m.loc(),
+                   where=m.qualname,
+                   construct=short(stores[0], 70) if stores else
+                   "no store into self",
+                   message="shard readers keep no per-shard state on the "
+                   "shared reader object", sample=False)
+    rep.floor(rule, n_r, 6, "reader methods")
 
 
 def walk_terms(ctx: Context) -> dict:
@@ -966,6 +1036,34 @@ def run(ctx: Context, rep) -> None:
     check_iter_buffer(ctx, rep, "C02.own", helpers[3])
     check_once(ctx, rep, "C02.once")
     check_stateless(ctx, rep, "C02.stateless")
+    # the transformation is applied to single examples: in the tf.data
+    # interface every .batch(..) comes after the .map(process_record) of its
+    # branch (a transformation mapped after batching sees whole batches)
+    rep.rule(
+        "C02.tf-stages",
+        "as_tfdataset, specialised on process_record given and batch_size "
+        "> 0: every path to a `.batch(` call passes `.map(process_record` "
+        "first (must-precede on the CFG)")
+    from sa.cfg import TRUTHY as _T2
+    tfd = ctx.fn(C.INTERFACES[0])
+    for ft_ in ("tfrec", "fb"):
+        cfg_t = CFG(tfd, env={"process_record": _T2, "batch_size": 8,
+                              "self.dataset_structure.shard_file_type": ft_})
+        maps_ = cfg_t.calls(lambda c_: isinstance(c_.func, ast.Attribute) and
+                            c_.func.attr == "map" and c_.args and
+                            dotted(c_.args[0]) == "process_record")
+        batches_ = cfg_t.calls(lambda c_: isinstance(c_.func, ast.Attribute)
+                               and c_.func.attr in ("batch", "padded_batch",
+                                                    "ragged_batch"))
+        early = cfg_t.always_before(maps_, batches_, normal_only=True)
+        rep.ob("C02.tf-stages", bool(batches_) and not early,
+               loc=tfd.loc(early[0].ast) if early else tfd.loc(),
+               where=tfd.qualname,
+               construct=f"{ft_}: map(process_record) ... batch(..)",
+               message="the caller's transformation is mapped over examples "
+               "before they are batched",
+               path=cfg_t.describe_path(cfg_t.path_to(early[0], avoiding=maps_))
+               if early else "")
     check_walk(ctx, rep, "C02.walk")
     check_batch(ctx, rep, "C02.batch")
     # the shuffled concurrent path goes through the lazy pool: its hand-over
@@ -979,6 +1077,10 @@ def run(ctx: Context, rep) -> None:
     rustrules.check_cursor(ctx, rep, "C02.rust-cursor")
     from sa.rules import shared
     shared.check_no_memo(ctx, rep, "C02.memo")
+    # what a pass yields is decided by the shard lists read for that pass,
+    # not by totals remembered on the handle (same check as C12.single)
+    from sa.rules import shared as _sh02s
+    _sh02s.share_rules(ctx, rep, "c12", {"C12.single": "C02.single"})
     from sa.rules import shared as _shl
     _shl.check_log_args_pure(ctx, rep, "C02.log")
     from sa.rules import shared as _sha
